@@ -101,7 +101,17 @@ type ObResult struct {
 	Detail string
 }
 
+// PathOutcome is a (path condition, result) pair in SMT-LIB text (comparable across paths).
+type PathOutcome struct {
+	Kind  string // "ok", "deadlock", "stuck", "panic"
+	PC    string
+	Value string
+	Decls map[string]string
+	Note  string
+}
+
 type PathResult struct {
+	Outcome      *PathOutcome
 	Decisions    []Decision
 	End          string // "ok", "panic", or pathEnd kind
 	EndMsg       string
@@ -417,3 +427,34 @@ func (m *Machine) NondetBytes(name string, n int) []*Term {
 	}
 	return out
 }
+
+// SetOutcome records the outcome of the current path for cross-path queries.
+func (m *Machine) SetOutcome(kind string, val *Term, note string) {
+	memo := map[*Term]string{}
+	pc := "true"
+	ts := append([]*Term{}, m.PC...)
+	if len(m.PC) > 0 {
+		parts := make([]string, len(m.PC))
+		for i, c := range m.PC {
+			parts[i] = SMT(c, memo)
+		}
+		pc = "(and true " + strings.Join(parts, " ") + ")"
+	}
+	o := &PathOutcome{Kind: kind, PC: pc, Note: note}
+	if val != nil {
+		o.Value = SMT(val, memo)
+		ts = append(ts, val)
+	}
+	o.Decls = VarDecls(ts...)
+	m.Res.Outcome = o
+}
+
+// ResetSched discards all simulated threads except the caller (used between the Go and GooseLang phases).
+func (m *Machine) ResetSched() {
+	m.finishThreads()
+	m.Sched = newSched()
+	m.Mon = newMonitor()
+}
+
+// Spawn starts a simulated thread running f (exported for companion interpreters).
+func (m *Machine) Spawn(f func()) { m.spawn(f) }
